@@ -6,12 +6,13 @@
 //! response for the same question with compatible flags, aged, not stale, with
 //! no DNSSEC records / AD bit for queries that did not ask; no panic.
 use bytes::Bytes;
-use domain::base::iana::{Class, Opcode, Rcode, Rtype};
+use domain::base::iana::{Class, Opcode, OptRcode, OptionCode, Rcode, Rtype};
 use domain::base::rdata::UnknownRecordData;
 use domain::base::{Message, MessageBuilder, Name, ParsedName, ToName, Ttl};
 use domain::net::client::cache;
 use domain::net::client::request::{ComposeRequest, Error, GetResponse, RequestMessage, SendRequest};
 use domain::rdata::AllRecordData;
+use domain::dep::octseq::OctetsBuilder;
 use dv_harness::*;
 use std::fmt::Write as _;
 use std::future::Future;
@@ -23,10 +24,13 @@ use std::time::Duration;
 // ---------- rendered observations ------------------------------------------------
 
 #[derive(Clone, Debug, PartialEq, Eq, PartialOrd, Ord)]
-struct Rec { rtype: u16, class: u16, ttl: u32, id: u32 }
+struct Rec { rtype: u16, class: u16, ttl: u32, id: u32, bad: bool }
 
+/// `broken`: walking the sections failed (what was readable up to there is kept);
+/// a record is `bad` when its header parses but its RDATA does not parse as its type.
 #[derive(Clone, Debug)]
-struct RMsg { rcode: u16, aa: bool, tc: bool, rd: bool, ad: bool, q: Option<(u16, u16)>, secs: [Vec<Rec>; 3] }
+struct RMsg { id: u16, rcode: u16, aa: bool, tc: bool, rd: bool, ad: bool, q: Option<(u16, u16)>, secs: [Vec<Rec>; 3], broken: bool }
+impl RMsg { fn has_bad(&self) -> bool { self.secs.iter().any(|s| s.iter().any(|r| r.bad)) } }
 
 #[derive(Clone, Debug)]
 enum RResp { Err(u8), Msg(RMsg) }
@@ -54,44 +58,48 @@ fn fnv32(s: &str) -> u32 {
     h & 0x3fff_ffff
 }
 
-fn render_msg(m: &Message<Bytes>) -> Result<RMsg, String> {
+fn hexs(b: &[u8]) -> String { b.iter().map(|x| format!("{:02x}", x)).collect() }
+
+fn render_msg(m: &Message<Bytes>) -> RMsg {
     let h = m.header();
-    let q = match m.question().next() { Some(Ok(q)) => Some((q.qtype().to_int(), q.qclass().to_int())), Some(Err(_)) => return Err("question".into()), None => None };
-    let mut secs: [Vec<Rec>; 3] = [vec![], vec![], vec![]];
-    let mut sec = m.answer().map_err(|_| "answer")?;
+    let mut out = RMsg { id: h.id(), rcode: m.opt_rcode().to_int(), aa: h.aa(), tc: h.tc(), rd: h.rd(), ad: h.ad(), q: None, secs: [vec![], vec![], vec![]], broken: false };
+    out.q = match m.question().next() { Some(Ok(q)) => Some((q.qtype().to_int(), q.qclass().to_int())), Some(Err(_)) => { out.broken = true; return out; } None => None };
+    let mut sec = match m.answer() { Ok(s) => s, Err(_) => { out.broken = true; return out; } };
     for i in 0..3 {
         for rr in &mut sec {
-            let rr = rr.map_err(|_| "record")?;
+            let rr = match rr { Ok(rr) => rr, Err(_) => { out.broken = true; return out; } };
             let (rtype, class, ttl) = (rr.rtype().to_int(), rr.class().to_int(), rr.ttl().as_secs());
             let owner = format!("{}", rr.owner()).to_ascii_lowercase();
-            let text = if rr.rtype() == Rtype::OPT {
-                // the OPT pseudo record: only its presence matters here
-                "opt".to_string()
+            let raw = match rr.to_record::<UnknownRecordData<_>>() { Ok(Some(r)) => hexs(r.data().data().as_ref()), _ => "?".into() };
+            let (text, bad) = if rr.rtype() == Rtype::OPT {
+                // the OPT pseudo record: its options as octets (class and the ttl field carry the rest)
+                (format!("opt {}", raw), false)
             } else {
-                match rr.to_record::<AllRecordData<_, ParsedName<_>>>() { Ok(Some(r)) => format!("{}", r.data()), _ => return Err("rdata".into()) }
+                match rr.to_record::<AllRecordData<_, ParsedName<_>>>() { Ok(Some(r)) => (format!("{}", r.data()), false), _ => (format!("raw {}", raw), true) }
             };
-            secs[i].push(Rec { rtype, class, ttl, id: fnv32(&format!("{} {} {}", owner, rtype, text.to_ascii_lowercase())) });
+            out.secs[i].push(Rec { rtype, class, ttl, id: fnv32(&format!("{} {} {}", owner, rtype, text.to_ascii_lowercase())), bad });
         }
-        if i < 2 { sec = sec.next_section().map_err(|_| "section")?.ok_or("section")?; }
+        if i < 2 { sec = match sec.next_section() { Ok(Some(s)) => s, _ => { out.broken = true; return out; } }; }
     }
-    Ok(RMsg { rcode: m.opt_rcode().to_int(), aa: h.aa(), tc: h.tc(), rd: h.rd(), ad: h.ad(), q, secs })
+    out
 }
 
 fn render(r: &Result<Message<Bytes>, Error>) -> RResp {
-    match r { Err(e) => RResp::Err(err_code(e)), Ok(m) => match render_msg(m) { Ok(m) => RResp::Msg(m), Err(_) => RResp::Err(98) } }
+    match r { Err(e) => RResp::Err(err_code(e)), Ok(m) => RResp::Msg(render_msg(m)) }
 }
 
 fn flags_word(m: &RMsg) -> u32 { m.aa as u32 | (m.tc as u32) << 1 | (m.rd as u32) << 2 | (m.ad as u32) << 3 }
 fn rec_word(r: &Rec) -> String { format!("{}:{}:{}:{}", r.rtype, r.class, r.ttl, r.id) }
+fn rec_case(r: &Rec) -> String { format!("{}:{}:{}:{}:{}", r.rtype, r.class, r.ttl, r.id, r.bad as u8) }
 
 /// response in case-line syntax (input of the model)
 fn resp_case(r: &RResp) -> String {
     match r {
         RResp::Err(c) => format!("e {}", c),
         RResp::Msg(m) => {
-            let mut s = format!("m {} {} {} {} {} {}", m.rcode, flags_word(m),
+            let mut s = format!("m {} {} {} {} {} {} {}", m.id, m.rcode, flags_word(m) | (m.broken as u32) << 4,
                 m.q.map_or("-".to_string(), |(t, c)| format!("{}:{}", t, c)), m.secs[0].len(), m.secs[1].len(), m.secs[2].len());
-            for sec in &m.secs { for r in sec { s.push(' '); s.push_str(&rec_word(r)); } }
+            for sec in &m.secs { for r in sec { s.push(' '); s.push_str(&rec_case(r)); } }
             s
         }
     }
@@ -102,7 +110,7 @@ fn resp_obs(r: &RResp) -> String {
         RResp::Err(c) => format!("e{}", c),
         RResp::Msg(m) => {
             let sec = |l: &Vec<Rec>| format!("[{}]", l.iter().map(rec_word).collect::<Vec<_>>().join(" "));
-            format!("m {} {} {} {} {}", m.rcode, flags_word(m), sec(&m.secs[0]), sec(&m.secs[1]), sec(&m.secs[2]))
+            format!("m {} {} {} {} {} {}", m.id, m.rcode, flags_word(m), sec(&m.secs[0]), sec(&m.secs[1]), sec(&m.secs[2]))
         }
     }
 }
@@ -114,10 +122,12 @@ const DNSSEC_TYPES: [u16; 3] = [46, 47, 50];
 const STRIP_OPTIONAL: [u16; 3] = [43, 48, 51];
 
 #[derive(Clone, Debug)]
-struct RecSpec { sec: usize, rtype: u16, class: u16, ttl: u32, owner_apex: bool, ser: u32 }
+struct RecSpec { sec: usize, rtype: u16, class: u16, ttl: u32, owner_apex: bool, ser: u32, bad: bool }
 
+/// `broken`: ARCOUNT promises one record more than the message holds.  `ext`: extended rcode
+/// carried by an OPT record (added even if the request had none).  `opt_data`: the OPT carries an option.
 #[derive(Clone, Debug)]
-enum RespSpec { Err(u8), Msg { rcode: u8, aa: bool, tc: bool, ad: bool, noq: bool, recs: Vec<RecSpec> } }
+enum RespSpec { Err(u8), Msg { rcode: u8, aa: bool, tc: bool, ad: bool, noq: bool, recs: Vec<RecSpec>, broken: bool, ext: Option<u16>, opt_data: bool } }
 
 #[derive(Clone, Debug)]
 struct QSpec { name: usize, class: u16, rtype: u16, rd: bool, cd: bool, ad: bool, do_: bool, opcode: u8 }
@@ -174,7 +184,7 @@ impl QObs {
 }
 
 #[derive(Clone)]
-struct LogEntry { q: QObs, t_ms: u64, resp: RResp, raw: Option<Bytes>, delay_ms: u64 }
+struct LogEntry { q: QObs, req_id: u16, t_ms: u64, resp: RResp, raw: Option<Bytes>, delay_ms: u64 }
 
 struct MockState { next: Option<(RespSpec, u64)>, log: Vec<LogEntry>, honest: bool, t0: tokio::time::Instant }
 
@@ -205,9 +215,9 @@ fn observe_query(m: &Message<Vec<u8>>) -> QObs {
 }
 
 fn build_response(req: &Message<Vec<u8>>, q: &QObs, spec: &RespSpec, honest: bool) -> Result<Message<Bytes>, Error> {
-    let (rcode, aa, tc, ad, noq, recs) = match spec {
+    let (rcode, aa, tc, ad, noq, recs, broken, ext, opt_data) = match spec {
         RespSpec::Err(c) => return Err(err_of(*c)),
-        RespSpec::Msg { rcode, aa, tc, ad, noq, recs } => (*rcode, *aa, *tc, *ad, *noq, recs),
+        RespSpec::Msg { rcode, aa, tc, ad, noq, recs, broken, ext, opt_data } => (*rcode, *aa, *tc, *ad, *noq, recs, *broken, *ext, *opt_data),
     };
     let qname: Name<Vec<u8>> = req.question().next().and_then(|q| q.ok()).map(|q| q.qname().to_name())
         .unwrap_or_else(|| Name::from_str("a.example.").unwrap());
@@ -229,17 +239,24 @@ fn build_response(req: &Message<Vec<u8>>, q: &QObs, spec: &RespSpec, honest: boo
     }
     let want = |r: &RecSpec| !(honest && !q.do_ && DNSSEC_TYPES.contains(&r.rtype));
     let rec = |r: &RecSpec| (if r.owner_apex { apex.clone() } else { qname.clone() }, Class::from_int(r.class), Ttl::from_secs(r.ttl),
-        UnknownRecordData::from_octets(Rtype::from_int(r.rtype), rdata(r.rtype, r.ser)).unwrap());
+        UnknownRecordData::from_octets(Rtype::from_int(r.rtype), { let mut d = rdata(r.rtype, r.ser); if r.bad { d.truncate(d.len() - 1); } d }).unwrap());
     for r in recs.iter().filter(|r| r.sec == 0 && want(r)) { ans.push(rec(r)).unwrap(); }
     let mut auth = ans.authority();
     for r in recs.iter().filter(|r| r.sec == 1 && want(r)) { auth.push(rec(r)).unwrap(); }
     let mut add = auth.additional();
     for r in recs.iter().filter(|r| r.sec == 2 && want(r)) { add.push(rec(r)).unwrap(); }
-    if req.opt().is_some() {
+    if req.opt().is_some() || ext.is_some() {
         let d = q.do_;
-        add.opt(|o| { o.set_udp_payload_size(1232); o.set_dnssec_ok(d); Ok(()) }).unwrap();
+        add.opt(|o| {
+            o.set_udp_payload_size(1232); o.set_dnssec_ok(d);
+            if let Some(x) = ext { o.set_rcode(OptRcode::masked_from_int(x)); }
+            if opt_data { o.push_raw_option(OptionCode::from_int(65001), 3, |t| t.append_slice(&[1, 2, q.rtype as u8]))?; }
+            Ok(())
+        }).unwrap();
     }
-    Ok(Message::from_octets(Bytes::from(add.into_message().into_octets())).unwrap())
+    let mut octets = add.into_message().into_octets();
+    if broken { let n = u16::from_be_bytes([octets[10], octets[11]]) + 1; octets[10..12].copy_from_slice(&n.to_be_bytes()); }
+    Ok(Message::from_octets(Bytes::from(octets)).unwrap())
 }
 
 impl GetResponse for MockReq {
@@ -256,7 +273,7 @@ impl GetResponse for MockReq {
             let resp = build_response(&msg, &q, &spec, honest);
             let mut st = self.mock.0.lock().unwrap();
             let t_ms = (tokio::time::Instant::now() - st.t0).as_millis() as u64;
-            st.log.push(LogEntry { q, t_ms, resp: render(&resp), raw: resp.as_ref().ok().map(|m| m.as_octets().clone()), delay_ms: delay });
+            st.log.push(LogEntry { q, req_id: msg.header().id(), t_ms, resp: render(&resp), raw: resp.as_ref().ok().map(|m| m.as_octets().clone()), delay_ms: delay });
             resp
         })
     }
@@ -318,17 +335,19 @@ async fn run_history(cfg: Cfg, evs: Vec<Ev>, trace: Arc<Mutex<Trace>>, mock: Moc
         let st = mock.0.lock().unwrap();
         let mut tr = trace.lock().unwrap();
         tr.cur = None;
-        if st.log.len() > before {
-            let le = &st.log[before];
+        if let Some(le) = st.log.iter().find(|le| le.req_id == 1000 + i as u16) {
             tr.words.push(format!("{} {} {}", qw, le.delay_ms, resp_case(&le.resp)));
-            tr.obs.push("F".into());
-            // pass-through must be what upstream said, unaltered
+            // pass-through must be what upstream said, unaltered; the one exception is an
+            // upstream message whose sections cannot be walked: the caller gets the parse error
             let same = match (&res, &le.raw, &le.resp) {
                 (Ok(m), Some(raw), _) => m.as_slice() == raw.as_ref(),
                 (Err(e), None, RResp::Err(c)) => err_code(e) == *c,
                 _ => false,
             };
-            if !same { tr.altered.push(format!("event {} {}", i, qw)); }
+            match (&res, &le.resp) {
+                (Err(e), RResp::Msg(um)) if um.broken && err_code(e) == 20 => tr.obs.push("FE20".into()),
+                _ => { tr.obs.push("F".into()); if !same { tr.altered.push(format!("event {} {}", i, qw)); } }
+            }
         } else {
             let r = render(&res);
             tr.words.push(format!("{} 0 e 0", qw));
@@ -481,7 +500,7 @@ fn oracle_selftest(out: &mut Out, cfg: &Cfg, tr: &Trace, log: &[LogEntry]) {
     expect(out, "record dropped", edit(plain, &|m, _| { m.secs[1].clear(); }), &["served_not_received"]);
     expect(out, "rcode changed", edit(plain, &|m, _| m.rcode = 3), &["served_not_received"]);
     expect(out, "AD kept", edit(plain, &|m, _| m.ad = true), &["ad_leak"]);
-    expect(out, "RRSIG kept", edit(plain, &|m, _| { let r = Rec { rtype: 46, class: 1, ttl: 1, id: 5 }; m.secs[0].push(r); }), &["dnssec_leak"]);
+    expect(out, "RRSIG kept", edit(plain, &|m, _| { let r = Rec { rtype: 46, class: 1, ttl: 1, id: 5, bad: false }; m.secs[0].push(r); }), &["dnssec_leak"]);
     expect(out, "served to CD", edit(plain, &|_, c| c.q.cd = true), &["flag_incompatible"]);
     expect(out, "much later", edit(plain, &|m, c| { c.now_ms += 400_000; for s in m.secs.iter_mut() { for r in s.iter_mut() { if r.rtype != 41 { r.ttl = 0; } } } }), &["ttl_increased"]);
     {
@@ -526,48 +545,52 @@ fn gen_resp(r: &mut Rng, q: &QSpec, ttls: &[u32], ser: &mut u32) -> RespSpec {
     let sig = r.chance(3, 4);
     match kind {
         0..=7 => { // positive
-            for _ in 0..r.range(1, 3) { recs.push(RecSpec { sec: 0, rtype: q.rtype, class: 1, ttl: t(r), owner_apex: false, ser: next() }); }
-            if r.chance(1, 5) { recs.insert(0, RecSpec { sec: 0, rtype: 5, class: 1, ttl: t(r), owner_apex: false, ser: next() }); }
-            if sig { recs.push(RecSpec { sec: 0, rtype: 46, class: 1, ttl: t(r), owner_apex: false, ser: next() }); }
-            if r.chance(1, 3) { recs.push(RecSpec { sec: 1, rtype: 2, class: 1, ttl: t(r), owner_apex: true, ser: next() }); }
-            if r.chance(1, 3) { recs.push(RecSpec { sec: 2, rtype: 1, class: 1, ttl: t(r), owner_apex: true, ser: next() }); }
-            if r.chance(1, 8) { recs.push(RecSpec { sec: 2, rtype: 46, class: 1, ttl: t(r), owner_apex: true, ser: next() }); }
+            for _ in 0..r.range(1, 3) { recs.push(RecSpec { sec: 0, rtype: q.rtype, class: 1, ttl: t(r), owner_apex: false, ser: next(), bad: false }); }
+            if r.chance(1, 5) { recs.insert(0, RecSpec { sec: 0, rtype: 5, class: 1, ttl: t(r), owner_apex: false, ser: next(), bad: false }); }
+            if sig { recs.push(RecSpec { sec: 0, rtype: 46, class: 1, ttl: t(r), owner_apex: false, ser: next(), bad: false }); }
+            if r.chance(1, 3) { recs.push(RecSpec { sec: 1, rtype: 2, class: 1, ttl: t(r), owner_apex: true, ser: next(), bad: false }); }
+            if r.chance(1, 3) { recs.push(RecSpec { sec: 2, rtype: 1, class: 1, ttl: t(r), owner_apex: true, ser: next(), bad: false }); }
+            if r.chance(1, 8) { recs.push(RecSpec { sec: 2, rtype: 46, class: 1, ttl: t(r), owner_apex: true, ser: next(), bad: false }); }
         }
         8..=10 => { // NODATA
-            if r.chance(1, 4) { recs.push(RecSpec { sec: 0, rtype: 5, class: 1, ttl: t(r), owner_apex: false, ser: next() }); }
-            recs.push(RecSpec { sec: 1, rtype: 6, class: 1, ttl: t(r), owner_apex: true, ser: next() });
+            if r.chance(1, 4) { recs.push(RecSpec { sec: 0, rtype: 5, class: 1, ttl: t(r), owner_apex: false, ser: next(), bad: false }); }
+            recs.push(RecSpec { sec: 1, rtype: 6, class: 1, ttl: t(r), owner_apex: true, ser: next(), bad: false });
             if sig {
-                recs.push(RecSpec { sec: 1, rtype: 46, class: 1, ttl: t(r), owner_apex: true, ser: next() });
-                recs.push(RecSpec { sec: 1, rtype: if r.chance(1, 2) { 47 } else { 50 }, class: 1, ttl: t(r), owner_apex: false, ser: next() });
+                recs.push(RecSpec { sec: 1, rtype: 46, class: 1, ttl: t(r), owner_apex: true, ser: next(), bad: false });
+                recs.push(RecSpec { sec: 1, rtype: if r.chance(1, 2) { 47 } else { 50 }, class: 1, ttl: t(r), owner_apex: false, ser: next(), bad: false });
             }
         }
         11..=12 => { // NXDOMAIN
             rcode = 3;
-            if r.chance(5, 6) { recs.push(RecSpec { sec: 1, rtype: 6, class: 1, ttl: t(r), owner_apex: true, ser: next() }); }
+            if r.chance(5, 6) { recs.push(RecSpec { sec: 1, rtype: 6, class: 1, ttl: t(r), owner_apex: true, ser: next(), bad: false }); }
             if sig {
-                recs.push(RecSpec { sec: 1, rtype: if r.chance(1, 2) { 47 } else { 50 }, class: 1, ttl: t(r), owner_apex: true, ser: next() });
-                recs.push(RecSpec { sec: 1, rtype: 46, class: 1, ttl: t(r), owner_apex: true, ser: next() });
+                recs.push(RecSpec { sec: 1, rtype: if r.chance(1, 2) { 47 } else { 50 }, class: 1, ttl: t(r), owner_apex: true, ser: next(), bad: false });
+                recs.push(RecSpec { sec: 1, rtype: 46, class: 1, ttl: t(r), owner_apex: true, ser: next(), bad: false });
             }
         }
         13..=14 => { // delegation
-            for _ in 0..r.range(1, 2) { recs.push(RecSpec { sec: 1, rtype: 2, class: 1, ttl: t(r), owner_apex: true, ser: next() }); }
+            for _ in 0..r.range(1, 2) { recs.push(RecSpec { sec: 1, rtype: 2, class: 1, ttl: t(r), owner_apex: true, ser: next(), bad: false }); }
             if sig {
-                recs.push(RecSpec { sec: 1, rtype: 43, class: 1, ttl: t(r), owner_apex: true, ser: next() });
-                recs.push(RecSpec { sec: 1, rtype: 46, class: 1, ttl: t(r), owner_apex: true, ser: next() });
+                recs.push(RecSpec { sec: 1, rtype: 43, class: 1, ttl: t(r), owner_apex: true, ser: next(), bad: false });
+                recs.push(RecSpec { sec: 1, rtype: 46, class: 1, ttl: t(r), owner_apex: true, ser: next(), bad: false });
             }
-            if r.chance(1, 2) { recs.push(RecSpec { sec: 2, rtype: 1, class: 1, ttl: t(r), owner_apex: true, ser: next() }); }
+            if r.chance(1, 2) { recs.push(RecSpec { sec: 2, rtype: 1, class: 1, ttl: t(r), owner_apex: true, ser: next(), bad: false }); }
         }
         15 => { // SERVFAIL / REFUSED / other, sometimes with records
             rcode = *r.pick(&[2u8, 5, 1, 4, 9]);
-            if r.chance(1, 3) { recs.push(RecSpec { sec: 1, rtype: 6, class: 1, ttl: t(r), owner_apex: true, ser: next() }); }
+            if r.chance(1, 3) { recs.push(RecSpec { sec: 1, rtype: 6, class: 1, ttl: t(r), owner_apex: true, ser: next(), bad: false }); }
         }
         16 => { // weird NOERROR: nothing useful, or records of another class
-            if r.chance(1, 2) { recs.push(RecSpec { sec: 0, rtype: q.rtype, class: 3, ttl: t(r), owner_apex: false, ser: next() }); }
-            if r.chance(1, 2) { recs.push(RecSpec { sec: 1, rtype: 6, class: 3, ttl: t(r), owner_apex: true, ser: next() }); }
+            if r.chance(1, 2) { recs.push(RecSpec { sec: 0, rtype: q.rtype, class: 3, ttl: t(r), owner_apex: false, ser: next(), bad: false }); }
+            if r.chance(1, 2) { recs.push(RecSpec { sec: 1, rtype: 6, class: 3, ttl: t(r), owner_apex: true, ser: next(), bad: false }); }
         }
         _ => return RespSpec::Err(r.range(1, 4) as u8),
     }
-    RespSpec::Msg { rcode, aa: r.chance(1, 2), tc: r.chance(1, 10), ad: r.chance(1, 2), noq: false, recs }
+    // malformed upstream data: one record whose RDATA is one octet short, or counts that promise too much
+    if r.chance(1, 12) && !recs.is_empty() { let i = r.below(recs.len() as u64) as usize; recs[i].bad = true; }
+    let ext = if r.chance(1, 25) { Some(*r.pick(&[16u16, 23, 3841, 4095])) } else { None };
+    RespSpec::Msg { rcode, aa: r.chance(1, 2), tc: r.chance(1, 10), ad: r.chance(1, 2), noq: r.chance(1, 60), recs,
+        broken: r.chance(1, 30), ext, opt_data: r.chance(1, 6) }
 }
 
 fn gen_history(r: &mut Rng, cfg: &Cfg, len: usize) -> Vec<Ev> {
@@ -612,11 +635,12 @@ fn gen_history(r: &mut Rng, cfg: &Cfg, len: usize) -> Vec<Ev> {
     evs
 }
 
-fn a_rec(sec: usize, rtype: u16, ttl: u32, apex: bool, ser: u32) -> RecSpec { RecSpec { sec, rtype, class: 1, ttl, owner_apex: apex, ser } }
+fn a_rec(sec: usize, rtype: u16, ttl: u32, apex: bool, ser: u32) -> RecSpec { RecSpec { sec, rtype, class: 1, ttl, owner_apex: apex, ser, bad: false } }
+fn bad_rec(sec: usize, rtype: u16, ttl: u32, apex: bool, ser: u32) -> RecSpec { RecSpec { sec, rtype, class: 1, ttl, owner_apex: apex, ser, bad: true } }
 fn qs(name: usize, rtype: u16, flags: u32) -> QSpec {
     QSpec { name, class: 1, rtype, rd: flags & 1 != 0, cd: flags & 2 != 0, ad: flags & 4 != 0, do_: flags & 8 != 0, opcode: 0 }
 }
-fn msg(rcode: u8, ad: bool, tc: bool, recs: Vec<RecSpec>) -> RespSpec { RespSpec::Msg { rcode, aa: true, tc, ad, noq: false, recs } }
+fn msg(rcode: u8, ad: bool, tc: bool, recs: Vec<RecSpec>) -> RespSpec { RespSpec::Msg { rcode, aa: true, tc, ad, noq: false, recs, broken: false, ext: None, opt_data: false } }
 
 /// fixed boundary / regression histories
 fn corpus() -> Vec<(Cfg, Vec<Ev>)> {
@@ -658,11 +682,11 @@ fn corpus() -> Vec<(Cfg, Vec<Ev>)> {
     }
     // an upstream "response" that carries no question section (NOERROR): must not panic
     v.push((dflt.clone(), vec![
-        ev(0, qs(0, 1, 1), RespSpec::Msg { rcode: 0, aa: false, tc: false, ad: false, noq: true, recs: vec![a_rec(0, 1, 60, false, 1)] }),
+        ev(0, qs(0, 1, 1), RespSpec::Msg { rcode: 0, aa: false, tc: false, ad: false, noq: true, recs: vec![a_rec(0, 1, 60, false, 1)], broken: false, ext: None, opt_data: false }),
         ev(1000, qs(0, 1, 1), msg(0, false, false, vec![a_rec(0, 1, 60, false, 2)])), ev(1000, qs(0, 1, 1), none.clone())]));
     // the same with an error rcode (the stream/dgram transports accept such replies when all sections are empty)
     v.push((dflt.clone(), vec![
-        ev(0, qs(0, 1, 1), RespSpec::Msg { rcode: 2, aa: false, tc: false, ad: false, noq: true, recs: vec![] }),
+        ev(0, qs(0, 1, 1), RespSpec::Msg { rcode: 2, aa: false, tc: false, ad: false, noq: true, recs: vec![], broken: false, ext: None, opt_data: false }),
         ev(1000, qs(0, 1, 1), none.clone()), ev(30_000, qs(0, 1, 1), none.clone())]));
     // zero TTL, weird NOERROR, OPT in the additional section is not aged
     v.push((dflt.clone(), vec![
